@@ -16,6 +16,7 @@ package http
 import (
 	"bytes"
 	"context"
+	"io"
 	"io/ioutil"
 	"math/rand"
 	"net"
@@ -138,10 +139,18 @@ func (h *Handler) ServeHTTP(response http.ResponseWriter, request *http.Request)
 			return
 		}
 	}
-	data, err := readAll(request.Body, request.ContentLength)
+	body := io.Reader(request.Body)
+	if request.ContentLength < 0 {
+		body = io.LimitReader(body, int64(h.Service.MaxRequestLength)+1)
+	}
+	data, err := readAll(body, request.ContentLength)
 	if err != nil {
 		h.onError(response, request, err)
 		response.WriteHeader(http.StatusBadRequest)
+		return
+	}
+	if len(data) > h.Service.MaxRequestLength {
+		response.WriteHeader(http.StatusRequestEntityTooLarge)
 		return
 	}
 	if err = request.Body.Close(); err != nil {
@@ -279,6 +288,10 @@ func (h *Handler) ServeFastHTTP(ctx *fasthttp.RequestCtx) {
 	}
 	serviceContext := h.getFastHTTPServiceContext(ctx)
 	body := ctx.Request.Body()
+	if len(body) > h.Service.MaxRequestLength {
+		ctx.SetStatusCode(fasthttp.StatusRequestEntityTooLarge)
+		return
+	}
 	request := make([]byte, len(body))
 	copy(request, body)
 	result, err := h.Service.Handle(core.WithContext(context.Background(), serviceContext), request)
